@@ -1,43 +1,70 @@
 #!/usr/bin/env python3
-"""Runs checks against the seeded breaking changes: applies each patch to /repo,
-runs the quick check of the property it targets (and any extra ids given with
---also), records whether a VIOLATION was reported, and always restores /repo.
-usage: run_seeded.py [--tier quick] [--also C07,C02] [names...]"""
-import json, os, subprocess, sys, time
+"""Runs checks against the seeded breaking changes.
+Default mode (the one recorded in seeded/results.json): apply each patch to /repo
+itself, run the quick check of the property it targets (and any extra ids given
+with --also), record whether a VIOLATION was reported, and always restore /repo.
+--worktrees N: instead use N scratch worktrees of /repo under /tmp (VERIF_REPO) in
+parallel - faster while exploring; /repo is not touched.
+usage: run_seeded.py [--tier quick] [--also C07,C02] [--worktrees N] [names...]"""
+import json, os, subprocess, sys, time, threading, queue
 ROOT='/verif'
 args=sys.argv[1:]
-tier='quick'; also=[]; names=[]
+tier='quick'; also=[]; names=[]; nwt=0
 i=0
 while i<len(args):
     if args[i]=='--tier': tier=args[i+1]; i+=2
     elif args[i]=='--also': also=args[i+1].split(','); i+=2
+    elif args[i]=='--worktrees': nwt=int(args[i+1]); i+=2
     else: names.append(args[i]); i+=1
 if not names: names=sorted(os.listdir(ROOT+'/seeded'))
 names=[n for n in names if os.path.isdir(f'{ROOT}/seeded/{n}') and os.path.exists(f'{ROOT}/seeded/{n}/patch.diff')]
 def sh(cmd,**kw): return subprocess.run(cmd,shell=True,stdout=subprocess.PIPE,stderr=subprocess.STDOUT,**kw)
-assert sh('git -C /repo status --porcelain').stdout.strip()==b'', '/repo is not clean'
-summary={}
 resf=ROOT+'/seeded/results.json'
-if os.path.exists(resf): summary=json.load(open(resf))
-for n in names:
+summary=json.load(open(resf)) if os.path.exists(resf) else {}
+lock=threading.Lock()
+def run_one(n, repo):
     d=f'{ROOT}/seeded/{n}'
     meta=json.load(open(d+'/meta.json'))
     props=[meta['property']]+[a for a in also if a!=meta['property']]
-    r=sh(f'git -C /repo apply --whitespace=nowarn {d}/patch.diff')
+    r=sh(f'git -C {repo} apply --whitespace=nowarn {d}/patch.diff')
     if r.returncode!=0:
-        print(n,'PATCH DOES NOT APPLY',r.stdout.decode()[:300]); continue
+        print(n,'PATCH DOES NOT APPLY',r.stdout.decode()[:300],flush=True); return
     try:
         out={}
         for p in props:
             t0=time.time()
-            r=sh(f'{ROOT}/bin/vcheck {p} --tier {tier}',cwd=ROOT)
+            env=dict(os.environ)
+            if repo!='/repo': env['VERIF_REPO']=repo
+            r=sh(f'{ROOT}/bin/vcheck {p} --tier {tier}',cwd=ROOT,env=env)
             txt=r.stdout.decode(errors='replace')
             sigs=sorted(set(l.strip().split(':')[0] for l in txt.splitlines() if l.startswith('  ') and ':' in l and not l.strip().startswith('observed')))
-            out[p]={'exit':r.returncode,'violation':'VIOLATION property=' in txt,'signatures':sigs[:6],'wall_s':round(time.time()-t0,1)}
+            out[p]={'exit':r.returncode,'violation':'VIOLATION property=' in txt,'signatures':sigs[:6],'wall_s':round(time.time()-t0,1),'mode':'applied to /repo' if repo=='/repo' else 'scratch worktree','tier':tier}
             print(n,p,'exit',r.returncode,'DETECTED' if out[p]['violation'] else ('INCONCLUSIVE' if r.returncode==2 else 'missed'),sigs[:3],f'{time.time()-t0:.0f}s',flush=True)
-        summary.setdefault(n,{}).update(out)
+        with lock:
+            summary.setdefault(n,{}).update(out)
+            json.dump(summary,open(resf,'w'),indent=1,sort_keys=True)
     finally:
-        sh('git -C /repo checkout -- .')
-        sh('git -C /repo clean -fdq')
-    json.dump(summary,open(resf,'w'),indent=1,sort_keys=True)
-assert sh('git -C /repo status --porcelain').stdout.strip()==b''
+        sh(f'git -C {repo} checkout -- .')
+        sh(f'git -C {repo} clean -fdq')
+if nwt<=0:
+    assert sh('git -C /repo status --porcelain').stdout.strip()==b'', '/repo is not clean'
+    for n in names: run_one(n,'/repo')
+    assert sh('git -C /repo status --porcelain').stdout.strip()==b''
+else:
+    q=queue.Queue()
+    for n in names: q.put(n)
+    wts=[]
+    for k in range(nwt):
+        w=f'/tmp/seedwt{k}'
+        sh(f'git -C /repo worktree remove --force {w}'); sh(f'rm -rf {w}')
+        r=sh(f'git -C /repo worktree add -q --detach {w} HEAD'); assert r.returncode==0, r.stdout
+        wts.append(w)
+    def worker(w):
+        while True:
+            try: n=q.get_nowait()
+            except queue.Empty: return
+            run_one(n,w)
+    ts=[threading.Thread(target=worker,args=(w,)) for w in wts]
+    [t.start() for t in ts]; [t.join() for t in ts]
+    for w in wts: sh(f'git -C /repo worktree remove --force {w}')
+    sh('git -C /repo worktree prune')
